@@ -94,7 +94,8 @@ def walk_tree(case):
             da = tree[f"imagery/{im['group']}/data"]
             n, p = im["n"], im["p"]
             sels = [dict(rows=0), dict(rows=slice(0, n, 2)), dict(rows=slice(None, None, -1), columns=0), dict(columns=slice(0, 0)),
-                    dict(rows=[0, n - 1]), dict(rows=-1, columns=-1), dict(rows=slice(1, 1))]
+                    dict(rows=[0, n - 1]), dict(rows=-1, columns=-1), dict(rows=slice(1, 1)), dict(rows=slice(0, 0), columns=slice(0, 1)),
+                    dict(rows=slice(0, 0), columns=0), dict(rows=0, columns=0), dict(rows=slice(n, None), columns=slice(None, None, 2))]
             for s in sels:
                 try:
                     sub = da.isel(s)
